@@ -17,13 +17,66 @@ RULE = ('Cases = generated scene (exact_counts 45%, layered, split_candidate, me
         'pattern, message).')
 ASSUMPTIONS = ['hit heights in [0, 1e5) ft as the quantifier states',
                'crashes of run() on valid input are C08\'s business: counted under skipped_precondition here']
-BUDGET = {'quick': 1300, 'thorough': 40000}
+BUDGET = {'quick': 1200, 'thorough': 40000}
+COVER_TABLE = ('cells = (okta-class tuple of the layers table with <= 4 rows, classes 0/FEW/SCT/BKN/OVC: 781 tuples) x '
+               '(pattern of rows at/above the MSA)')
+ENUM_K = {'quick': 3, 'thorough': 4}
+CLASS_COUNT = {0: 2, 1: 4, 2: 9, 3: 16, 4: 24}   # hits out of 24 measurements (MAX_HITS_OKTA0=2, MAX_HOLES_OKTA8=0)
 WEIGHTS = {'exact_counts': 9, 'layered': 4, 'split_candidate': 2, 'merge_chain': 2, 'degenerate': 1,
            'ref_window': 2}
 
 
 def strategy(tier):
     return S.pipeline_case(WEIGHTS, vary=('msa', 'okta', 'sep'), p_default_prms=0.1)
+
+
+def enum_case(classes, msa):
+    """ k flat layers 2000 ft apart with exactly the hit counts of the wanted okta classes. """
+    meas = [('a', -900.0 + 30.0 * i) for i in range(24)]
+    hits = [[] for _ in range(24)]
+    for j, cls in enumerate(classes):
+        # spread the hits of a layer evenly over the measurements
+        n = CLASS_COUNT[cls]
+        for i in range(n):
+            hits[(i * 24 // n + j) % 24].append(1000.0 + 2000.0 * j)
+    return {'cls': 'enum', 'rows': S.rows_from_hits(meas, hits), 'classes': list(classes),
+            'prms': {'MAX_HITS_OKTA0': 2, 'MAX_HOLES_OKTA8': 0, 'MSA': msa, 'MSA_HIT_BUFFER': 0,
+                     'MIN_SEP_VALS': [250, 1000]}}
+
+
+def enum_msas(k):
+    out = [None, 500]
+    for j in range(k):
+        out += [1000 + 2000 * j, 2000 + 2000 * j]
+    return out
+
+
+def jobs(tier, seed, kmax=None):
+    import itertools
+    out = []
+    for k in range(1, (kmax or ENUM_K[tier]) + 1):
+        for first in range(5):
+            out.append({'name': f'enum-k{k}-{first}', 'k': k, 'first': first})
+    return out
+
+
+def run_job(job, ctx):
+    import itertools
+    k = job['k']
+    n_bad = 0
+    for rest in itertools.product(range(5), repeat=k - 1):
+        classes = (job['first'],) + rest
+        for msa in enum_msas(k):
+            case = enum_case(classes, msa)
+            res = check(case)
+            if res.sample and 'realised' in res.sample and res.sample['realised'] != list(classes) and msa is None:
+                n_bad += 1
+            ctx.record(case, res)
+    if n_bad:
+        ctx.stats.notes.append(f'{n_bad} enumerated scenes did not realise the intended okta classes')
+    if job['first'] == 4:
+        ctx.stats.exhaustive.append(f'all okta-class tuples (0/FEW/SCT/BKN/OVC) of {k} stacked flat layers x MSA None / below '
+                                    'all / exactly at each base / between the layers / above all')
 
 
 def okta_class(o):
@@ -99,7 +152,11 @@ def check(case):
                                         else f'{msg.count(" ") + 1}grp'))
             if msa is not None and any(r['height_base'] == msa for r in table):
                 res.labels.append('base==MSA')
+            if len(table) <= 4:
+                res.cover.append(f"{tuple(okta_class(r['okta']) for r in table)}|"
+                                 f"{tuple(int(r['height_base'] >= msa_val) for r in table)}")
             res.sample = {'cls': case['cls'], 'n_rows': len(case['rows']), 'prms': case['prms'],
+                          'realised': [okta_class(r['okta']) for r in table],
                           'layers': [(r['code'], r['okta'], r['height_base']) for r in table],
                           'msg': msg}
     res.key = key
